@@ -7,12 +7,12 @@ META = {
     "harness_bins": ["c17"],
     "extract": "C17.v",
     "technique": "Coq proof: tree model of Vector/Slice refines lists for every operation history (wf invariant + list refinement, any branching factor >= 2); model tied to the Rust crate by differential replay of clone/mutate histories (extracted OCaml model vs Rust, contents and tree representation of every live handle compared after every operation)",
-    "level_text": "Proved in Coq for every branching factor B >= 2 (not only powers of two), every element type and every operation history (coq/Props/C17.v, 33 theorems, closed under the global context): "
-                  "C17_history_refines - for every op list over a family of vector and slice handles (new/from/clone/drop/push/pop/set/get/truncate/extend/iter_from, slice push/pop/set/get/slice/extend/extend-from-slice/iter) the implementation-shaped run irun and the run srun of independent lists return the same result at every step (including exactly the same panics), and after every step every live handle satisfies the Prop-level invariant wf/swf and denotes (to_list / sl_list) the list the specification holds for it; so an operation through one handle never changes what another handle denotes (C17_frame_vec, C17_frame_slice). "
-                  "wf (uniform depth = height, packed left, chunks of 1..B entries with every chunk off the right edge full, interior root with >= 2 children, vlen = number of elements, height = height_for_length vlen) is established by new and preserved by push/pop/set/truncate/extend, none of which panics in contract, and each refines the list operation (++[x], last/removelast, nth_error, list_set, firstn, ++, skipn); wf implies the crate's check_invariants; slice operations refine the window firstn (end-start) (skipn start l); shifts/masks equal div/mod for B = 2^k (C17_bit_ops_agree). "
+    "level_text": "Proved in Coq for every branching factor B >= 2 (not only powers of two), every element type and every operation history (coq/Props/C17.v, 35 theorems, closed under the global context): "
+                  "C17_history_refines - for every op list over a family of vector and slice handles (new/from/clone/drop/push/pop/set/get/truncate/extend/iter_from/iter_mut_from, slice push/pop/set/get/slice/extend/extend-from-slice/iter/iter_mut) the implementation-shaped run irun and the run srun of independent lists return the same result at every step (including exactly the same panics), and after every step every live handle satisfies the Prop-level invariant wf/swf and denotes (to_list / sl_list) the list the specification holds for it; so an operation through one handle never changes what another handle denotes (C17_frame_vec, C17_frame_slice). "
+                  "wf (uniform depth = height, packed left, chunks of 1..B entries with every chunk off the right edge full, interior root with >= 2 children, vlen = number of elements, height = height_for_length vlen) is established by new and preserved by push/pop/set/truncate/extend, none of which panics in contract, and each refines the list operation (++[x], last/removelast, nth_error, list_set, firstn, ++, skipn; iter_mut replaces exactly the elements handed out); wf implies the crate's check_invariants; slice operations refine the window firstn (end-start) (skipn start l); shifts/masks equal div/mod for B = 2^k (C17_bit_ops_agree). "
                   "Strengthening T1 (Vector/RcHeap.v, C17_rc_*): new/clone/get/set/push over an explicit heap of reference-counted cells with Rc::make_mut (copy iff count <> 1, children's counts bumped on copy); with exact counts as invariant, set and push through one handle refine the value-level operation and leave the abstraction of every other live handle unchanged (frame), and calling Node::set on a shared root without make_mut provably breaks it (RcExamples.v). "
                   "The model is hand-written from vector.rs/slice.rs; the tie to the code is the correspondence run: the same histories are executed by the extracted model and by the Rust crate built from /repo for B in {2,4,8,32}, and after every operation the result, the contents and the exact tree representation (node structure, chunk contents, length, height, start, end, read off the derived Debug output) of every live handle are compared; independently every Rust handle is compared with a Vec twin and check_invariants() is called (direct oracle).",
-    "level_note": "Trusted: Coq kernel; extraction (ExtrOcamlBasic only); the hand-written model's reading of vector.rs/slice.rs (value-level: Rc sharing/make_mut is modelled as value copy, which is what safe Rust guarantees for a crate without unsafe); imbl-sized-chunks; the derived Debug impls used to read the Rust trees; the history generator. The fuel of vextend_loop and the iterator-as-list view of Extend are part of the model (proved sufficient: extend never returns None). Not covered: IterMut / iter_mut_starting_at, serde impls, Hash/Eq impls, usize overflow (lengths are unbounded nat in the model). Note: the crate's own check_invariants()/is_packed is weaker than wf (it ignores right_most below an interior node; Vector/Examples.v: check_invariants_incomplete), so the Vec twin and the tree comparison carry the direct oracle.",
+    "level_note": "Trusted: Coq kernel; extraction (ExtrOcamlBasic only); the hand-written model's reading of vector.rs/slice.rs (value-level: Rc sharing/make_mut is modelled as value copy, which is what safe Rust guarantees for a crate without unsafe); imbl-sized-chunks; the derived Debug impls used to read the Rust trees; the history generator. The fuel of vextend_loop and the iterator-as-list view of Extend are part of the model (proved sufficient: extend never returns None). Not covered: serde impls, Hash/Eq impls, usize overflow (lengths are unbounded nat in the model). Note: the crate's own check_invariants()/is_packed is weaker than wf (it ignores right_most below an interior node; Vector/Examples.v: check_invariants_incomplete), so the Vec twin and the tree comparison carry the direct oracle.",
 }
 
 ELEMS = 10
@@ -169,19 +169,19 @@ class Gen:
                     self.sl[k] = (st, en - 1, en - 1)
                 else:
                     self.event("pop_on_empty")
-        elif c < 57:                                  # set
+        elif c < 55:                                  # set
             if bad or ln == 0:
                 i = ln + r.below(3)
                 self.event("set_out_of_bounds")
             else:
                 i = r.choice([0, ln - 1, r.below(ln), min(ln - 1, r.choice(self.bnd))])
             self.ops.append("%ss%d:%d:%d" % (p, k, i, r.below(ELEMS)))
-        elif c < 66:                                  # get
+        elif c < 62:                                  # get
             i = r.choice([r.below(ln + 2), ln, ln + B, min(ln, r.choice(self.bnd)), (bl if bl is not None else ln)])
             if i >= ln:
                 self.event("get_out_of_bounds")
             self.ops.append("%sg%d:%d" % (p, k, i))
-        elif c < 78:
+        elif c < 74:
             if use_v:                                 # truncate
                 n = self.aim_len(ln)
                 self.ops.append("vt%d:%d" % (k, n))
@@ -211,7 +211,7 @@ class Gen:
                     self.event("slice")
                 else:
                     self.event("slice_out_of_contract")
-        elif c < 92:                                  # extend
+        elif c < 88:                                  # extend
             base = ln if use_v else en
             tgt = self.aim_len(base + r.below(3 * B + 2))
             m = max(0, min(tgt - base if tgt > base else r.choice([0, 1, 2, B - 1, B, B + 1, 2 * B + 1]), self.cap - base, 700))
@@ -238,6 +238,22 @@ class Gen:
                 if en < bl:
                     self.event("slice_extend_truncates_shared_tail")
                 self.sl[k] = (st, en + m, en + m)
+        elif c < 94:                                  # iter_mut (Vector::iter_mut, iter_mut_starting_at, Slice::iter_mut)
+            d = 1 + r.below(9)
+            if use_v:
+                if r.chance(1, 4):
+                    self.ops.append("va%d:%d" % (k, d))
+                else:
+                    if bad:
+                        i = ln + 1 + r.below(2)
+                        self.event("iter_mut_from_out_of_bounds")
+                    else:
+                        i = r.choice([0, ln, r.below(ln + 1), min(ln, r.choice(self.bnd))])
+                    self.ops.append("vm%d:%d:%d" % (k, i, d))
+            else:
+                self.ops.append("sm%d:%d" % (k, d))
+                if st > 0 or en < bl:
+                    self.event("slice_iter_mut_inside_larger_vector")
         else:                                         # iterate
             if use_v:
                 if bad:
@@ -272,11 +288,11 @@ def exhaustive_small(tier):
             out.append("2 " + init + "," + ",".join(h))
             rec(init, alpha, h, depth - 1)
     # slices over a shared 3-element vector (handles s0, s1 = clone made inside the history)
-    rec("sf:0.1.2", ["sp0:1", "sp1:2", "sc0", "so0", "so1", "sl0:1:2", "sl0:0:1", "ss0:0:3", "se0:1.2.3", "sx1:0", "sg1:1"], [], 5)
+    rec("sf:0.1.2", ["sp0:1", "sp1:2", "sc0", "so0", "so1", "sl0:1:2", "sl0:0:1", "ss0:0:3", "se0:1.2.3", "sx1:0", "sm0:1"], [], 5)
     # vectors around the height-1/height-2 boundary (5 elements, B = 2)
-    rec("vf:0.1.2.1.0", ["vp0:1", "vc0", "vo0", "vo1", "vt0:4", "vt0:2", "vt1:1", "ve0:1.2.0", "vs0:3:2", "vp1:2", "vg1:4"], [], 5)
+    rec("vf:0.1.2.1.0", ["vp0:1", "vc0", "vo0", "vo1", "vt0:4", "vt0:2", "vt1:1", "ve0:1.2.0", "vs0:3:2", "vp1:2", "vm0:3:1"], [], 5)
     # a deeper one: 9 elements (height 3), depth 4
-    rec("vf:0.1.2.0.1.2.0.1.2,vc0", ["vo0", "vt0:8", "vt0:4", "vt0:0", "ve0:1.1.1.1.1.1.1.1", "vp0:2", "vo1", "vt1:5", "vi1:3"], [], 4)
+    rec("vf:0.1.2.0.1.2.0.1.2,vc0", ["vo0", "vt0:8", "vt0:4", "vt0:0", "ve0:1.1.1.1.1.1.1.1", "vp0:2", "vo1", "vt1:5", "va1:1"], [], 4)
     return out
 
 
@@ -420,7 +436,7 @@ def run(ck):
         ck.sample({"history": c[:300], "impl_trace": a[:400]})
     ck.coverage["traces_validated_against_impl"] = len(cases)
     ck.coverage["comparisons"] = "per operation: result; per live handle: contents digest (Rust vs model vs list spec), tree-representation digest (Rust vs model), Vec twin + check_invariants() (Rust only)"
-    ck.coverage["rule"] = ("history = seeded random op sequence over vector and slice handles (new/from/clone/drop/push/pop/set/get/truncate/slice/extend/extend-from-slice/iter), "
+    ck.coverage["rule"] = ("history = seeded random op sequence over vector and slice handles (new/from/clone/drop/push/pop/set/get/truncate/slice/extend/extend-from-slice/iter/iter_mut), "
                            "B in {2,4,8,32}; profiles small/deep/slice/mixed aim lengths and indices at B^k-1, B^k, B^k+1, m*B^k(+1); ~3% out-of-contract ops; "
                            "non-trivial = contains a clone and >= 4 ops; distinct by exact text; thorough adds exhaustive histories over three small alphabets (B=2) and histories up to 1500 ops")
     ck.coverage["partial"] = "Rc sharing is modelled at value level (persistence by construction); see DESIGN.md C17 T1"
